@@ -63,7 +63,7 @@ def parse_subst(s):
     if len(parts) != 2:
         raise ExtractError('bad substitution %r' % s)
     opts = dict(kv.split('=') for kv in rest.split()) if rest else {}
-    return parts[0], parts[1], opts
+    return parts[0], parts[1].replace('\\&', '&'), opts
 
 
 def parse_regex(s):
@@ -92,6 +92,9 @@ class Func:
         self.noret = False
         self.region = None
         self.header = []
+        self.prologue = []
+        self.epilogue = []
+        self.whole = False
         self.kind = 'fn'
         self.tmpl_line = 0
         self.raw = None
@@ -203,6 +206,8 @@ def build_func(unit, f, grws):
         a, b = S.toks[ti].start, S.toks[te].end
         if b > fb:
             raise ExtractError('region block escapes function')
+        if f.whole:
+            a = S.text.rfind('\n', 0, m.start()) + 1
         raw = S.text[a:b]
         f.repo_line = S.line_of(a)
     f.repo_file = S.path
@@ -231,10 +236,13 @@ def build_func(unit, f, grws):
         pieces = [Piece(hdr + '\n', 'tmpl', unit.tmpl_path, f.tmpl_line)]
         if f.contract:
             pieces.append(Piece('\n'.join(l for l, _ in f.contract) + '\n', 'contract', unit.tmpl_path, f.contract[0][1]))
+        pieces.append(Piece('{\n' + ''.join(l + '\n' for l, _ in f.prologue), 'tmpl', unit.tmpl_path, f.tmpl_line))
         body = text
-        toks = tokenize(body)
-        body_open, body_close = 0, match_close(toks, 0)
-        sig_text = ''
+        toks = tokenize('{' + body + '}')
+        for t in toks:
+            t.start -= 1
+            t.end -= 1
+        body_open, body_close = 0, len(toks) - 1
         base_line = f.repo_line
     else:
         toks = tokenize(text)
@@ -289,6 +297,8 @@ def build_func(unit, f, grws):
         cur = off
     seg = body[cur:]
     pieces.append(Piece(seg + '\n', 'repo', S.path, line))
+    if f.kind == 'region':
+        pieces.append(Piece(''.join(l + '\n' for l, _ in f.epilogue) + '}\n', 'tmpl', unit.tmpl_path, f.tmpl_line))
     return pieces
 
 
@@ -344,7 +354,7 @@ def parse_template(path, mutation=None):
                 continue
             if d.startswith('fn ') or d.startswith('region ') or d.startswith('item '):
                 kind = d.split()[0]
-                parts = [x.strip() for x in d[len(kind):].split('::')]
+                parts = [x.strip() for x in d[len(kind):].split(' :: ')]
                 cur = Func()
                 cur.kind = kind
                 cur.tmpl_line = ln
@@ -364,21 +374,23 @@ def parse_template(path, mutation=None):
                     for r in rest:
                         if r.startswith('as '):
                             cur.outname = r[3:].strip()
+                        if r == 'whole':
+                            cur.whole = True
                 section = None
                 continue
             if d.startswith('pin '):
-                parts = [x.strip() for x in d[4:].split('::')]
+                parts = [x.strip() for x in d[4:].split(' :: ')]
                 unit.pins.append(dict(alias=parts[0], container='' if parts[1] == '-' else parts[1], name=parts[2],
                                       sha=parts[3] if len(parts) > 3 else '', line=ln,
                                       tags=parts[4].split() if len(parts) > 4 else []))
                 continue
             if d.startswith('mutant '):
-                parts = [x.strip() for x in d[7:].split('::', 3)]
+                parts = [x.strip() for x in d[7:].split(' :: ', 3)]
                 rx, repl, _ = parse_subst(parts[3])
                 unit.mutants.append(dict(name=parts[0], fn=parts[1], props=parts[2].split(), rx=rx, repl=repl))
                 continue
             if d.startswith('glue '):
-                parts = [x.strip() for x in d[5:].split('::')]
+                parts = [x.strip() for x in d[5:].split(' :: ')]
                 unit.glue.append(dict(id=parts[0], alias=parts[1], container='' if parts[2] == '-' else parts[2],
                                       fn=parts[3], anchor=parse_regex(parts[4])[0], lines=int(parts[5]),
                                       sha=parts[6] if len(parts) > 6 else '', line=ln))
@@ -412,6 +424,12 @@ def parse_template(path, mutation=None):
                 # header lines are plain strings
                 cur.header = _HeaderList()
                 section = cur.header
+                continue
+            if d == 'prologue':
+                section = cur.prologue
+                continue
+            if d == 'epilogue':
+                section = cur.epilogue
                 continue
             if d.startswith('loop '):
                 k = int(d[5:])
